@@ -75,7 +75,7 @@ func runC09(r *ev.Run) {
 	}
 
 	classes := universe.ThreeMan()
-	classes = append(classes, parseClasses(seedPick(fourMan, r.Seed, ev.Pick(r, 3, 16)))...)
+	classes = append(classes, parseClasses(seedFour(r, 0, 3, 16))...)
 	r.Set("classes", classNames(classes))
 	type worker struct{ ld eng.Loader }
 	var sc atomic.Int64
@@ -122,6 +122,35 @@ func runC09(r *ev.Run) {
 	}
 	r.Set("five_man_constrained", five)
 
+	// constrained classes with the defending king confined to the corner region: boxed-in kings whose
+	// only moves (if any) are pawn moves and captures: the stalemate case analysis
+	cornerish := []int{56, 57, 48, 63, 62, 55} // a8 b8 a7 h8 g8 h7
+	stale := ev.Pick(r, []string{"KPPkp", "KNPkp"}, []string{"KPPkp", "KNPkp", "KPkpp", "KBPkp", "KRPkp", "KPPkn", "KNPkpp"})
+	var staleN atomic.Int64
+	for _, name := range stale {
+		c := universe.ParseClass(name)
+		ws := make([]worker, 64)
+		ev.Parallel(64, func(wi, item int) {
+			if r.Expired() {
+				return
+			}
+			universe.EnumShard(c, universe.Opts{Shard: item, NoRights: true, NoEP: true, BlackKingIn: cornerish, OnlyStm: 2}, func(p *refchess.Pos) {
+				staleN.Add(1)
+				handle(ws[item].ld.Load(p), p)
+				// and the colour-flipped twin (White's pawn directions and masks)
+				m := p.Mirror()
+				handle(ws[item].ld.Load(&m), &m)
+			})
+		})
+	}
+	r.Set("constrained_corner_classes", stale)
+	r.Set("constrained_corner_positions", staleN.Load()*2)
+
+	// check-evasion family: a king caged by its own men with one open diagonal, a checking bishop/queen
+	// anywhere on it, one own pawn anywhere, optionally one more own piece: captures of the checker and
+	// interpositions by pieces, single and double pawn pushes are the only possible replies
+	r.Set("check_evasion_family", c09EvasionFamily(r, handle))
+
 	// U2: dense positions (pins, double checks, blocks by double push) by play
 	roots := universe.AllRoots()
 	depth := ev.Pick(r, 2, 3)
@@ -154,4 +183,93 @@ func runC09(r *ev.Run) {
 	r.Nontrivial.Store(inCheck.Load() + stalemates.Load())
 	r.Set("distinct_outcomes", map[string]int64{"in_check": inCheck.Load(), "checkmates": mates.Load(), "stalemates": stalemates.Load(), "positions_with_ep_target": epPositions.Load()})
 	r.Set("rule", "every valid position of the listed material classes with engine-normalised en-passant state (target kept only if a legal capture exists), constrained 5-man classes (thorough), and every node of the trees below the root corpus; IsCheckmate is called only in check, IsStalemate only out of check; oracle: answer == (reference has no legal move); non-trivial = positions in check + stalemates")
+}
+
+
+// c09EvasionFamily enumerates, for each cage, the checker on every square of the open line, an own pawn on
+// every square, the enemy king on every square and optionally one more own piece on every square; both colours.
+func c09EvasionFamily(r *ev.Run, handle func(b *board.Board, p *refchess.Pos)) int64 {
+	type cage struct {
+		king  int
+		fixed map[int]int8
+		line  []int // the open line, from the king outwards
+	}
+	cages := []cage{
+		// Kg1 Bf1 Bh1 Pg2 Ph2, open diagonal f2-a7
+		{6, map[int]int8{5: 3, 7: 3, 14: 1, 15: 1}, []int{13, 20, 27, 34, 41, 48}},
+		// Kh8 Bg8 Ph7, open diagonal g7-a1
+		{63, map[int]int8{62: 3, 55: 1}, []int{54, 45, 36, 27, 18, 9, 0}},
+		// Kh4 Pg5? a king on the edge caged by Rh5 Rh3 Pg3 with g5 covered later by the enemy king: open rank g4-a4
+		{31, map[int]int8{39: 4, 23: 4, 22: 1, 38: 1}, []int{30, 29, 28, 27, 26, 25, 24}},
+	}
+	var n atomic.Int64
+	extras := ev.Pick(r, []int8{0, 2}, []int8{0, 2, 4, 5})
+	type job struct {
+		c    cage
+		pawn int
+	}
+	var jobs []job
+	for _, c := range cages {
+		for pawn := 8; pawn < 56; pawn++ {
+			jobs = append(jobs, job{c, pawn})
+		}
+	}
+	ev.Parallel(len(jobs), func(wk, item int) {
+		if r.Expired() {
+			return
+		}
+		j := jobs[item]
+		var ld eng.Loader
+		var p refchess.Pos
+		p.Ep = -1
+		p.Full = 1
+		p.Sq[j.c.king] = refchess.King
+		for sq, mn := range j.c.fixed {
+			p.Sq[sq] = mn
+		}
+		if p.Sq[j.pawn] != 0 {
+			return
+		}
+		p.Sq[j.pawn] = refchess.Pawn
+		try := func() {
+			if !p.Valid() || !p.InCheck(refchess.White) {
+				return
+			}
+			n.Add(1)
+			handle(ld.Load(&p), &p)
+			m := p.Mirror()
+			handle(ld.Load(&m), &m)
+		}
+		for _, csq := range j.c.line {
+			if p.Sq[csq] != 0 {
+				break
+			}
+			for _, ck := range []int8{-3, -5, -4} {
+				p.Sq[csq] = ck
+				for bk := 0; bk < 64; bk++ {
+					if p.Sq[bk] != 0 {
+						continue
+					}
+					p.Sq[bk] = -refchess.King
+					for _, x := range extras {
+						if x == 0 {
+							try()
+							continue
+						}
+						for s := 0; s < 64; s++ {
+							if p.Sq[s] != 0 {
+								continue
+							}
+							p.Sq[s] = x
+							try()
+							p.Sq[s] = 0
+						}
+					}
+					p.Sq[bk] = 0
+				}
+				p.Sq[csq] = 0
+			}
+		}
+	})
+	return n.Load() * 2
 }
